@@ -350,7 +350,11 @@ pub fn handle(op: &str, req: &Value) -> Option<Value> {
                 // the node is "n1": a pre-state vote for the node's own id is a vote for "n1", any other voter id must not collide with it
                 let vote = if pre["voted_for"].is_null() { None } else if pre["voted_for"] == pre["node_id"] { Some("n1".to_string()) }
                            else { Some(sid(&pre["voted_for"])).map(|v| if v == "n1" { "n1-other".to_string() } else { v }) };
-                w.append(&RaftWalEntry::TermAndVote { term: pre["term"].as_u64().unwrap_or(1), voted_for: vote }).unwrap();
+                // a candidate pre-state (role 1, voted for itself) is reached the real way: one term lower on disk, then start_election()
+                let as_candidate = pre["role"].as_u64() == Some(1) && pre["voted_for"] == pre["node_id"] && !pre["voted_for"].is_null() && pre["term"].as_u64().unwrap_or(0) >= 1
+                    && req["node_level"].as_str() != Some("start_election");
+                let (t0, vote) = if as_candidate { (pre["term"].as_u64().unwrap_or(1) - 1, None) } else { (pre["term"].as_u64().unwrap_or(1), vote) };
+                w.append(&RaftWalEntry::TermAndVote { term: t0, voted_for: vote }).unwrap();
                 // the node's pre-log, as persist_log_entry would have written it
                 for (i, t) in pre["log_terms"].as_array().into_iter().flatten().enumerate() {
                     let e = LogEntry::new(t.as_u64().unwrap_or(1), i as u64 + 1, Block::default());
@@ -368,6 +372,10 @@ pub fn handle(op: &str, req: &Value) -> Option<Value> {
             {
                 let node = match mk() { Ok(n) => n, Err(e) => return Some(json!({"error": e.to_string()})) };
                 let m = &req["msg"];
+                if pre["role"].as_u64() == Some(1) && pre["voted_for"] == pre["node_id"] && !pre["voted_for"].is_null() && pre["term"].as_u64().unwrap_or(0) >= 1
+                    && req["node_level"].as_str() != Some("start_election") {
+                    node.start_election();
+                }
                 match req["node_level"].as_str().unwrap_or("") {
                     "request_vote" => {
                         let rv = RequestVote { term: m["rv.0"].as_u64().unwrap_or(0), candidate_id: sid(&m["rv.1"]), last_log_index: m["rv.2"].as_u64().unwrap_or(0),
